@@ -1,14 +1,20 @@
 #!/usr/bin/env python3
-"""Run the registered checks against every seeded change (scratch copy of /repo per seed; /repo is not touched).
-Prints which properties' checks detect each seed and writes seeded/RESULTS.json."""
-import json, os, shutil, subprocess, sys, tempfile, glob
+"""Run the rules of every claimed property against every seeded change (scratch copy of /repo per seed;
+/repo is not touched). Prints which properties' checks detect each seed and writes seeded/RESULTS.json.
+usage: run_seeded.py [-j N] [names...]"""
+import json, os, shutil, subprocess, sys, tempfile, glob, concurrent.futures as cf
 root = os.path.dirname(os.path.dirname(os.path.abspath(__file__)))
 claimed = [c["property_id"] for c in json.load(open(os.path.join(root, "MANIFEST.json")))["checks"]]
-want = set(sys.argv[1:])
-results = {}
-for d in sorted(glob.glob(os.path.join(root, "seeded", "C*"))):
+args = sys.argv[1:]
+J = 1
+if args and args[0] == "-j":
+    J = int(args[1]); args = args[2:]
+want = set(args)
+BIN = tempfile.mktemp(prefix="raftlint-seeded-")
+shutil.copy(os.path.join(root, "bin", "raftlint"), BIN); os.chmod(BIN, 0o755)
+
+def one(d):
     name = os.path.basename(d)
-    if want and name not in want: continue
     meta = json.load(open(os.path.join(d, "meta.json")))
     tmp = tempfile.mkdtemp(prefix="seedrun-")
     try:
@@ -16,11 +22,9 @@ for d in sorted(glob.glob(os.path.join(root, "seeded", "C*"))):
         subprocess.run(["rsync", "-a", "--exclude", ".git", "/repo/", dst + "/"], check=True)
         r = subprocess.run(["patch", "-p1", "-s", "-i", os.path.join(d, "patch.diff")], cwd=dst, capture_output=True, text=True)
         if r.returncode != 0:
-            print("PATCH-FAIL", name, r.stdout[-200:]); continue
-        os.makedirs(os.path.join(tmp, "checker")); shutil.copy(os.path.join(root, "checker", "floors.json"), os.path.join(tmp, "checker"))
-        if os.path.exists(os.path.join(root, "known_findings.json")): shutil.copy(os.path.join(root, "known_findings.json"), tmp)
+            return name, None, "PATCH-FAIL " + r.stdout[-200:]
         fired = {}
-        rr = subprocess.run([os.path.join(root, "bin", "raftlint"), "-all", "-repo", dst], capture_output=True, text=True)
+        rr = subprocess.run([BIN, "-all", "-repo", dst], capture_output=True, text=True, env=dict(os.environ, VERIF_DIR=root))
         cur = None
         for l in rr.stdout.splitlines():
             if l.startswith("FAIL "):
@@ -33,9 +37,18 @@ for d in sorted(glob.glob(os.path.join(root, "seeded", "C*"))):
                 fired[cur].append(l.strip()[:200])
         fired = {k: v for k, v in fired.items() if k in claimed or k == "LOAD"}
         own = meta["property"] in fired
-        results[name] = {"property": meta["property"], "detected_by_own_property": own, "detected_by": sorted(fired), "first_reports": {k: v[:1] for k, v in fired.items()}}
-        print(("DETECT " if fired else "MISSED ") + name, "own" if own else "", sorted(fired))
+        res = {"property": meta["property"], "detected_by_own_property": own, "detected_by": sorted(fired), "first_reports": {k: v[:1] for k, v in fired.items()}}
+        return name, res, ("DETECT " if fired else "MISSED ") + name + (" own " if own else " ") + str(sorted(fired))
     finally:
         shutil.rmtree(tmp, ignore_errors=True)
+
+dirs = [d for d in sorted(glob.glob(os.path.join(root, "seeded", "C*"))) if not want or os.path.basename(d) in want]
+results = {}
+with cf.ThreadPoolExecutor(J) as ex:
+    for name, res, line in ex.map(one, dirs):
+        print(line); sys.stdout.flush()
+        if res is not None:
+            results[name] = res
+os.remove(BIN)
 if not want:
-    json.dump(results, open(os.path.join(root, "seeded", "RESULTS.json"), "w"), indent=1)
+    json.dump(results, open(os.path.join(root, "seeded", "RESULTS.json"), "w"), indent=1, sort_keys=True)
